@@ -64,8 +64,14 @@ def rules(ctx: Ctx) -> None:
         # only conditioned on having a table target with columns
         # every condition the registration depends on is about the statement's write target or its columns: each name in it is computed from
         # `<holder>.write` or from `get_table_columns(...)` (whatever the locals are called)
+        def _from_statement_holder(e: ast.AST) -> bool:
+            return any(isinstance(v, ast.Call) and isinstance(v.func, ast.Attribute) and v.func.attr == "analyze" for v in prog.value_sources(ev, e))
+
         def _about_target(a: ast.AST) -> bool:
             nodes = list(prog.influences(ev, a))
+            # what the session / provider already knows must not decide whether this statement's columns are registered
+            if any(isinstance(k, ast.Call) and isinstance(k.func, ast.Attribute) and k.func.attr in ("get_table_columns", "_get_table_columns") and not _from_statement_holder(k.func.value) for k in nodes):
+                return False
             return any(isinstance(k, ast.Attribute) and k.attr == "write" for k in nodes) or any(isinstance(k, ast.Call) and isinstance(k.func, ast.Attribute) and k.func.attr == "get_table_columns" for k in nodes)
 
         foreign = [u(a) for a in controlling_atoms(prog.parents, call) if not _about_target(a)]
